@@ -153,15 +153,6 @@ theorem restart_campaign_equiv (policy : Policy K) (mode : Mode) (hm : mode ≠ 
   files, the per-K result files) and therefore identical after a restart.  The two theorems below make the
   boundary explicit. -/
 
-theorem stepsH_fst {H : Type} (policyH : H → Policy K) (stepH : H → State K → H)
-    (hind : ∀ h h', policyH h = policyH h') (h0 : H) :
-    ∀ (n : Nat) (rh : Run K × H), (stepsH policyH stepH n rh).1 = steps (policyH h0) n rh.1
-  | 0, _ => rfl
-  | n + 1, rh => by
-    simp only [stepsH, steps]
-    rw [stepsH_fst policyH stepH hind h0 n]
-    simp only [nextIterH, hind rh.2 h0]
-
 /-- T3.  A process may carry any amount of non-persisted state `h` (evolving by any `stepH`, rebuilt by any
     `initH` at a restart): as long as the refinement decision does not READ it, restart equivalence holds exactly
     as in `restart_equiv`. -/
@@ -191,16 +182,17 @@ theorem restart_equiv_persisted_only {H : Type} (policyH : H → Policy K) (step
 
 /-- T3' — the hypothesis is needed.  A decision that reads non-persisted state breaks restart equivalence.
     Here the hidden state is the number of iterations done by THIS process (re-created as 0 at a restart) and the
-    decision refines the K-point with that index: 2 iterations in one go give 21/4, 1 + 1 iterations give 4.
+    decision refines the K-point with that index: 2 iterations in one go give 3/2, 1 + 1 iterations give 13/4
+    (the restarted process refines the dead point 0 again).
     (A weight cache that is refreshed by set_factor() at a restart but not by add_factor() in the running process
     is hidden state of exactly this kind.) -/
 theorem hidden_state_breaks_restart :
     let policyH : Nat → Policy Rat := fun h _ => [RefOp.divide h [1, 2]]
     let stepH : Nat → State Rat → Nat := fun h _ => h + 1
     let initH : State Rat → Nat := fun _ => 0
-    let init := [((3 : Rat), 1/2), (5, 1/2)]
+    let init : List (Rat × Rat) := [(3, 1/2), (5, 1/2)]
     let d := (runFreshH policyH stepH initH Mode.memory init 1).1.disk
-    (runFreshH policyH stepH initH Mode.memory init 2).1.st.resultAll = some (7/4) ∧
+    (runFreshH policyH stepH initH Mode.memory init 2).1.st.resultAll = some (3/2) ∧
     (runRestartH policyH stepH initH Mode.memory d 1).map (fun R => R.1.st.resultAll) = some (some (13/4)) := by
   decide +kernel
 
